@@ -138,12 +138,30 @@ Proof. vm_compute. split; reflexivity. Qed.
 Lemma ex_ops2_pre : pre_run vm_pre (spec_init 8 0 F64_44100) ex_ops2 = true /\ pre_run wasm_pre (spec_init 8 0 F64_44100) ex_ops2 = true.
 Proof. vm_compute. split; reflexivity. Qed.
 
-(* a released handle is detected by both (the last load faults with FInvalidHandle everywhere) *)
+(* a released handle is detected by both (the last load faults with FInvalidHandle everywhere); the two implementations
+   number their handles differently (VM: transmuted key, index in the high half; WASM host: KeyData::as_ffi, version in
+   the high half), which the handle tables absorb *)
 Lemma ex_ops_runs :
   spec_run (spec_init 0 0 F64_44100) ex_ops =
     [SHeapH 0; SHeapH 1; SCount 2; SVals [VNum F64_ONE; VHeap 0]; SUnit; SCount 1; SCount 0; SInvalid; SFault FInvalidHandle] /\
-  vm_run 0 ex_ops = wasm_run 0 F64_44100 ex_ops.
-Proof. vm_compute. split; reflexivity. Qed.
+  vm_run 0 ex_ops =
+    [IHandle 4294967297; IHandle 8589934593; ICount 2; IWords [F64_ONE; 4294967297]; IUnit; ICount 1; ICount 0; IInvalid; IFault FInvalidHandle] /\
+  wasm_run 0 F64_44100 ex_ops =
+    [IHandle 4294967297; IHandle 4294967298; ICount 2; IWords [F64_ONE; 4294967297]; IUnit; ICount 1; ICount 0; IInvalid; IFault FInvalidHandle].
+Proof. vm_compute. repeat split. Qed.
+
+(* REPAIRED (finding P5): a word that is no heap handle on the WASM host.  The host used to transmute the word into a key:
+   the zero word (a `type rec` value that was never assigned, e.g. the initial `self`) became the key (index 0, version 0)
+   of slotmap's vacant sentinel slot, which `get` accepts: a vacant slot read as a HeapObject (SIGSEGV).  With
+   KeyData::from_ffi the version is forced odd, so the zero word, a word that names no slot and the word of a
+   released object are all plain invalid handles (a word with an EVEN version field v denotes version v+1): warning for retain / release, "invalid heap index" fault for a load. *)
+Definition w_badheap : list op :=
+  [OHeapAlloc 1; OHeapRelease (VHeap 0); OHeapAlloc 1; OHeapRetain (VNum 0); OHeapRelease (VNum 2);
+   OHeapRetain (VNum 4294967297); OHeapLoad (VNum 0) 1].
+Lemma wasm_bad_heap_word_invalid :
+  wasm_run 0 F64_44100 w_badheap =
+    [IHandle 4294967297; ICount 0; IHandle 12884901889; IInvalid; IInvalid; IInvalid; IFault FInvalidHandle].
+Proof. vm_compute. reflexivity. Qed.
 
 Lemma ex_ops2_short : N.of_nat (length ex_ops2) + 4 < 4294967296.
 Proof. vm_compute. reflexivity. Qed.
